@@ -216,7 +216,7 @@ func runC06(c *eng.Ctx) {
 		offs := map[string]map[int64]bool{"consumed": {}, "ack": {}}
 		n := 0
 		for _, f := range p.FuncsWithPrefix(cgT + ".") {
-			for _, s := range p.Sites(f, invokeOn(".metaPage", "PutUint64")) {
+			for _, s := range p.SitesDirect(f, invokeOn(".metaPage", "PutUint64")) {
 				args := eng.CallArgs(s.Instr.(*ssa.Call))
 				off, ok := eng.ConstInt(args[1])
 				d := p.Desc(args[0])
